@@ -42,6 +42,17 @@ func genC12(r *h.Rng, tier string, idx int) *h.Plan {
 	p.Tape.MapOrder = r.Pick([]string{"sorted", "reversed", "shuffled"})
 	ids := []string{"s1", "s2", "s3"}
 	rids := []string{"q1", "q2"}
+	weights := []int{6, 3, 4, 3, 3, 1, 2, 3}
+	if r.P(1, 4) {
+		// rule churn: every client works on the same one or two rules
+		// (add, remove, enable, disable, dispatch), where the compound
+		// location operations meet
+		weights = []int{1, 0, 0, 0, 4, 3, 5, 4}
+		if r.Bool() {
+			rids = []string{"q1"}
+		}
+		p.Cfg["mode"] = "rulechurn"
+	}
 	uniq := 0
 	total := 0
 	for c := 0; c < nc; c++ {
@@ -50,7 +61,7 @@ func genC12(r *h.Rng, tier string, idx int) *h.Plan {
 			total++
 			uniq++
 			var op h.Op
-			switch r.Weighted([]int{6, 3, 4, 3, 3, 1, 2, 3}) {
+			switch r.Weighted(weights) {
 			case 0:
 				op = h.Op{K: "addfact", Id: r.Pick(ids), J: map[string]interface{}{"v": fmt.Sprintf("u%d", uniq)}}
 			case 1:
@@ -202,6 +213,191 @@ var c12Model = porcupine.Model{
 	DescribeOperation: func(input, output interface{}) string {
 		return input.(h.Op).String() + " -> " + output.(string)
 	},
+}
+
+
+// ---- split specification (classifies one known finding) ------------------------
+//
+// Location.ProcessEvent is not one atomic step in the code: FindRules.Do reads
+// the matching rules in one lock section (state.FindCachedRules) and then, per
+// rule, reads the rule's "disabled" property in another (Location.RuleEnabled);
+// Location.RemRule removes the rule (with its deleteWith dependents) and then
+// looks for, and removes, a "disabled" property in two more.  A history that
+// the atomic specification rejects is re-checked against a specification in
+// which exactly these operations are sequences of atomic state steps taken
+// anywhere inside the operation's window.  If that explains it, the violation
+// is classified by the call site (and compared with the known-findings file
+// like any other); if not, it stays "not-linearizable".
+
+type c12Sub struct {
+	Op    h.Op
+	Ev    int64  // call stamp of the parent operation
+	Phase string // evD | evP | evF | rrA | rrB
+	Rid   string
+}
+
+type c12Prog struct {
+	Snap map[string]string `json:"snap,omitempty"` // rule id -> action value seen at dispatch
+	Chk  map[string]bool   `json:"chk,omitempty"`  // rule id -> enabled when checked
+	A    bool              `json:"a,omitempty"`
+}
+
+var c12RuleIds = []string{"q1", "q2"}
+
+func c12SplitStep(state string, in c12Sub) (bool, string, string) {
+	m := c12Decode(state)
+	key := fmt.Sprintf("~%d", in.Ev)
+	var pr c12Prog
+	have := false
+	if s, ok := m[key]; ok {
+		json.Unmarshal([]byte(s), &pr)
+		have = true
+	}
+	if pr.Snap == nil {
+		pr.Snap = map[string]string{}
+	}
+	if pr.Chk == nil {
+		pr.Chk = map[string]bool{}
+	}
+	put := func() string {
+		bs, _ := json.Marshal(pr)
+		m[key] = string(bs)
+		return c12Encode(m)
+	}
+	switch in.Phase {
+	case "evD":
+		if have {
+			return false, state, ""
+		}
+		pr.Snap = map[string]string{}
+		pr.Chk = map[string]bool{}
+		for id, v := range m {
+			if strings.HasPrefix(id, "~") {
+				continue
+			}
+			var body map[string]interface{}
+			json.Unmarshal([]byte(v), &body)
+			rule, ok := body["rule"].(map[string]interface{})
+			if !ok {
+				continue
+			}
+			pat, ok := h.WhenPattern(rule)
+			if !ok {
+				continue
+			}
+			if bss, err := h.MatchBindings(pat, in.Op.Map()); err == nil && len(bss) > 0 {
+				act, _ := rule["action"].(map[string]interface{})
+				code, _ := act["code"].(string)
+				pr.Snap[id] = h.Canon(strings.Trim(code, "'"))
+			}
+		}
+		return true, put(), ""
+	case "evP":
+		if !have {
+			return false, state, ""
+		}
+		if _, done := pr.Chk[in.Rid]; done {
+			return false, state, ""
+		}
+		_, dis := m[h.PropId(in.Rid, "disabled")]
+		pr.Chk[in.Rid] = !dis
+		return true, put(), ""
+	case "evF":
+		if !have || len(pr.Chk) != len(c12RuleIds) {
+			return false, state, ""
+		}
+		var vals []string
+		for id, v := range pr.Snap {
+			if pr.Chk[id] {
+				vals = append(vals, v)
+			}
+		}
+		delete(m, key)
+		return true, c12Encode(m), h.MultisetKey(vals)
+	case "rrA":
+		if have {
+			return false, state, ""
+		}
+		op := in.Op
+		op.K = "remfact" // the id and what names it in deleteWith; the property look-up is rrB
+		ns, _ := c12Apply(c12Encode(m), op)
+		m = c12Decode(ns)
+		pr.A = true
+		return true, put(), ""
+	case "rrB":
+		if !have || !pr.A {
+			return false, state, ""
+		}
+		delete(m, h.PropId(in.Op.Id, "disabled"))
+		delete(m, key)
+		return true, c12Encode(m), "ok"
+	}
+	return false, state, ""
+}
+
+// c12SplitModel: plain operations step atomically (progress records, keyed
+// "~<stamp>", are invisible to them); c12Sub inputs step as above.
+var c12SplitModel = porcupine.Model{
+	Init: func() interface{} { return "" },
+	Step: func(state, input, output interface{}) (bool, interface{}) {
+		if sub, ok := input.(c12Sub); ok {
+			legal, ns, want := c12SplitStep(state.(string), sub)
+			if !legal {
+				return false, state
+			}
+			if sub.Phase == "evF" || sub.Phase == "rrB" {
+				return want == output.(string), ns
+			}
+			return true, ns
+		}
+		m := c12Decode(state.(string))
+		prog := map[string]string{}
+		for k, v := range m {
+			if strings.HasPrefix(k, "~") {
+				prog[k] = v
+				delete(m, k)
+			}
+		}
+		ns, want := c12Apply(c12Encode(m), input.(h.Op))
+		if want != output.(string) {
+			return false, state
+		}
+		if len(prog) > 0 {
+			m2 := c12Decode(ns)
+			for k, v := range prog {
+				m2[k] = v
+			}
+			ns = c12Encode(m2)
+		}
+		return true, ns
+	},
+	Equal: func(a, b interface{}) bool { return a.(string) == b.(string) },
+}
+
+// c12Split rewrites a history: every event (and, with remrule set, every
+// RemRule) becomes its atomic steps, all sharing the operation's window.
+func c12Split(ops []porcupine.Operation, remrule bool) []porcupine.Operation {
+	var out []porcupine.Operation
+	for _, o := range ops {
+		op := o.Input.(h.Op)
+		sub := func(phase, rid string, output string) {
+			out = append(out, porcupine.Operation{ClientId: o.ClientId, Input: c12Sub{Op: op, Ev: o.Call, Phase: phase, Rid: rid}, Call: o.Call, Output: output, Return: o.Return})
+		}
+		switch {
+		case op.K == "event":
+			sub("evD", "", "")
+			for _, rid := range c12RuleIds {
+				sub("evP", rid, "")
+			}
+			sub("evF", "", o.Output.(string))
+		case op.K == "remrule" && remrule:
+			sub("rrA", "", "")
+			sub("rrB", "", o.Output.(string))
+		default:
+			out = append(out, o)
+		}
+	}
+	return out
 }
 
 // c12Do executes one client operation against the real location and
@@ -410,7 +606,16 @@ func execC12(t *testing.T, plan *h.Plan, trace bool) *h.Result {
 			}
 		}
 		sort.Strings(ks)
-		viol("not-linearizable", strings.Join(ks, "+"), "no sequential order of these requests explains the observed results and the final memory/storage state:\n%s", strings.Join(lines, "\n"))
+		class, sig := "not-linearizable", strings.Join(ks, "+")
+		what := "no sequential order of these requests explains the observed results and the final memory/storage state"
+		if porcupine.CheckOperationsTimeout(c12SplitModel, c12Split(ops, false), 20*time.Second) == porcupine.Ok {
+			class, sig = "event-not-atomic", "FindRules.Do:rules-then-RuleEnabled"
+			what = "no sequential order of these requests explains the results; an order exists only if ProcessEvent is taken as separate steps (read the matching rules, then read each rule's disabled property)"
+		} else if porcupine.CheckOperationsTimeout(c12SplitModel, c12Split(ops, true), 20*time.Second) == porcupine.Ok {
+			class, sig = "remrule-not-atomic", "Location.RemRule:Rem-then-RemProp"
+			what = "no sequential order of these requests explains the results; an order exists only if RemRule is taken as separate steps (remove the rule, then look for and remove its disabled property)"
+		}
+		viol(class, sig, what+":\n%s", strings.Join(lines, "\n"))
 	case porcupine.Unknown:
 		res.Count("linearizability_inconclusive", 1)
 	default:
